@@ -346,7 +346,7 @@ func (w *World) newPathState(wk *worker, prefix []int, opt Options) *pathState {
 		choiceVals: map[string]int{},
 		maxSteps:   opt.MaxSteps, maxDepth: opt.MaxDepth,
 		failRead: map[string]bool{}, failWrite: map[string]bool{},
-		oracle: opt.Oracle,
+		oracle: opt.Oracle, forcedPerm: -1,
 	}
 	if ps.maxSteps <= 0 {
 		ps.maxSteps = 20_000_000
